@@ -1,3 +1,3 @@
 SPECIFICATION Spec
-INVARIANT AcceptedIffDocumented RejectedWhateverOperands BracketlessLaw UnaryOperandsNotArrays ExportCases
+INVARIANT AcceptedIffDocumented RejectedWhateverOperands BracketlessLaw WrongCountReached UnaryOperandsNotArrays ExportCases
 CHECK_DEADLOCK FALSE
